@@ -662,6 +662,19 @@ def _parse_bin(fn: ast.FunctionDef) -> dict:
         out['enc_read'][site] = (enc, c.lineno)
     if set(out['enc_read']) != set(SITES):
         _fail(f'parse_bin: string read sites found {sorted(out["enc_read"])}')
+    # are the strings kept as they were read?  every assignment to one of the four locals must be a read_nullstr call or an
+    # entry of the string table, with nothing done to it (a reader that folds or strips a name loses its spelling)
+    tables = {par[c].targets[0].id for c in calls if c.func.attr == 'read_nullstr_array' and isinstance(par.get(c), ast.Assign)
+              and len(par[c].targets) == 1 and isinstance(par[c].targets[0], ast.Name)}
+    out['strings_as_read'], out['strings_line'] = True, fn.lineno
+    for n in ast.walk(fn):
+        if isinstance(n, ast.Assign) and len(n.targets) == 1 and isinstance(n.targets[0], ast.Name) \
+                and n.targets[0].id in (el_type_var, el_name_var, attr_name_var, value_var):
+            v = n.value
+            plain = (isinstance(v, ast.Subscript) and isinstance(v.value, ast.Name) and v.value.id in tables and isinstance(v.slice, ast.Name)) \
+                or (isinstance(v, ast.Call) and isinstance(v.func, ast.Attribute) and v.func.attr == 'read_nullstr')
+            if not plain:
+                out['strings_as_read'], out['strings_line'] = False, n.lineno
     if stub_read != 'EncAscii':
         _fail('parse_bin: stub reference is not followed by `UUID(binformat.read_nullstr(file))`')
     # the stub branch: `[I] = struct_read('<i', file)` then `if I == -1: ... elif I == -2: U = UUID(read_nullstr(file)) ...`
@@ -2362,6 +2375,8 @@ def translate() -> tuple[str, dict]:
         '(* _export_kv2: the skip test of the loop over the members; _parse_kv2_element: the test in front of the name setter *)',
         f'Definition gen_kv2_skip : mfilter := {mfilter(kv2m["skip"])}.',
         f'Definition gen_kv2_name_test : nametest := {kv2m["name_test"]}.',
+        '(* parse_bin: are element types, element names, attribute names and string values stored exactly as read (string table entry / read_nullstr) *)',
+        f'Definition gen_bin_strings_stored_as_read : bool := {b(pb["strings_as_read"])}.',
         '(* _export_kv2: is the name line written for every element; for which (cull_uuid, is a root) is the id line written *)',
         f'Definition gen_kv2_name_line_always : bool := {b(kv2m["name_line_always"])}.',
         f'Definition gen_kv2_id_written : bool -> bool -> bool := fun cull root => {kv2m["id_cond"]}.',
